@@ -36,6 +36,12 @@ Fixpoint dec_digits (fuel : nat) (n : Z) (acc : list Z) : list Z :=
 Definition itoa (n : Z) : list Z :=
   if n <? 0 then 45 :: dec_digits 25 (- n) [] else dec_digits 25 n [].
 
+(* string.gmatch: a '^' at the start of the pattern does not work as an anchor,
+   it stands for itself — the pattern compiled is "%" .. ptn (matching.go
+   gmatch; lstrlib's gmatch simply does not look for an anchor) *)
+Definition gmatch_pattern (ptn : list Z) : list Z :=
+  match ptn with 94 :: _ => 37 :: ptn | _ => ptn end.
+
 (* ======================================================================= IM *)
 Section IM.
 Variable p : pattern.
